@@ -16,9 +16,15 @@ namespace DriverC13
 open Proto Shutdown
 
 inductive Op where
-  | conn | unary (c s : Nat) | stream (c n s : Nat) | adv (k : Nat) | sig | endInc | accErr
-  | dropConn (c : Nat) | cancel (k : Nat) | age
+  | conn | connStalled | connBad | hello (c : Nat)
+  | unary (c s : Nat) | stream (c n s : Nat)
+  | cstream (c m s : Nat) | bidi (c m n s : Nat) | reqMsg (k : Nat)
+  | adv (k : Nat) | sig | endInc | accErr
+  | dropConn (c : Nat) | cancel (k : Nat) | wait (secs : Nat)
 deriving Repr
+
+/-- `max_connection_age` the harness configures in `a1` scripts, in seconds -/
+def ageLimit : Nat := 3600
 
 structure Step where
   op : Op
@@ -32,9 +38,13 @@ def splitColon (cs : List Char) : List (List Char) :=
 def parseOp (body : List Char) : Option Op :=
   match body with
   | ['C'] => some .conn
+  | ['H'] => some .connStalled
+  | ['H', 'b'] => some .connBad
+  | 'h' :: rest => (natOf rest).map .hello
   | ['G'] => some .sig
   | ['E'] => some .endInc
-  | ['T'] => some .age
+  | ['T'] => some (.wait ageLimit)
+  | 'W' :: rest => (natOf rest).map .wait
   | ['I', 'r'] => some .accErr
   | ['I', 'o'] => some .accErr
   | 'U' :: rest =>
@@ -45,6 +55,15 @@ def parseOp (body : List Char) : Option Op :=
     match splitColon rest with
     | [c, n, s] => do some (.stream (← natOf c) (← natOf n) (← natOf s))
     | _ => none
+  | 'Q' :: rest =>
+    match splitColon rest with
+    | [c, m, s] => do some (.cstream (← natOf c) (← natOf m) (← natOf s))
+    | _ => none
+  | 'B' :: rest =>
+    match splitColon rest with
+    | [c, m, n, s] => do some (.bidi (← natOf c) (← natOf m) (← natOf n) (← natOf s))
+    | _ => none
+  | 'M' :: rest => (natOf rest).map .reqMsg
   | 'A' :: rest => (natOf rest).map .adv
   | 'D' :: rest => (natOf rest).map .dropConn
   | 'X' :: rest => (natOf rest).map .cancel
@@ -62,15 +81,33 @@ structure Script where
   graceful : Bool
   age : Bool
   steps : List Step
+  /-- loopback TCP through `serve_with_shutdown(addr, signal)` / `serve(addr)`: connections are
+  observed from their client ends, the open count at resolution is not observable -/
+  tcp : Bool := false
+  /-- the server has a TLS acceptor (`Server::tls_config`): connections go through
+  `ServerIoStream`'s handshake set before the accept loop sees them -/
+  tls : Bool := false
 
 def parseScript (case : List String) : Option Script :=
   match case with
   | tag :: m :: _b :: _p :: a :: rest =>
     if !tag.startsWith "sc" then none else
-    let g := match m with | "g" => some true | "n" => some false | _ => none
+    let g := match m with
+      | "g" => some (true, false, false) | "n" => some (false, false, false)
+      | "t" => some (true, true, false) | "u" => some (false, true, false)
+      | "gs" => some (true, false, true)
+      | _ => none
     let ag := match a with | "a0" => some false | "a1" => some true | _ => none
     match g, ag, rest.mapM parseStep with
-    | some g, some ag, some steps => some { graceful := g, age := ag, steps := steps }
+    | some (g, tcp, tls), some ag, some steps =>
+      -- a TcpIncoming cannot be ended or made to fail from outside, and the TCP variant has no
+      -- non-quiescent steps
+      if tcp && steps.any (fun st => !st.settled || (match st.op with
+          | .endInc | .accErr => true | _ => false)) then none
+      -- stalled / non-TLS clients only make sense against a TLS server
+      else if !tls && steps.any (fun st => match st.op with
+          | .connStalled | .connBad | .hello _ => true | _ => false) then none
+      else some { graceful := g, age := ag, steps := steps, tcp := tcp, tls := tls }
     | _, _, _ => none
   | _ => none
 
@@ -157,6 +194,9 @@ structure Sim where
   callMap : List (Nat × Nat)     -- call id → (connection, index within the connection)
   accW : List Bool               -- oracle: was connection c accepted
   startW : List Bool             -- oracle: was call k started
+  tls : Bool := false            -- the server is configured with TLS
+  now : Nat := 0                 -- virtual clock, whole seconds
+  accAt : List (Option Nat) := []  -- virtual time at which connection c was accepted
 
 def Sim.apply (m : Sim) (l : Label) : Sim :=
   match step m.st l with
@@ -178,7 +218,8 @@ def callIdx (s : State) : List (Nat × Nat) :=
 
 /-- steps whose outcome a later operation could still pre-empt -/
 def Sim.eager (m : Sim) : List Label :=
-  ((connIdx m.st).filter m.wantAcc).map Label.loopAccept
+  (connIdx m.st).map Label.tlsTake ++ (connIdx m.st).map Label.tlsDone
+  ++ ((connIdx m.st).filter m.wantAcc).map Label.loopAccept
   ++ (connIdx m.st).map Label.hsDone
   ++ ((callIdx m.st).filter fun cj => m.wantStart cj.1 cj.2).map fun cj => Label.callStart cj.1 cj.2
 
@@ -186,6 +227,7 @@ def Sim.candidates (m : Sim) : List Label :=
   m.eager
   ++ (callIdx m.st).map (fun cj => Label.produce cj.1 cj.2)
   ++ (callIdx m.st).map (fun cj => Label.deliver cj.1 cj.2)
+  ++ (connIdx m.st).map Label.tlsFail
   ++ [Label.loopSig, Label.loopErr, Label.loopEnd, Label.afterLoop]
   ++ (connIdx m.st).flatMap (fun c =>
         [Label.connSig c, Label.connAge c, Label.final c, Label.connBreak c, Label.connDropWatcher c])
@@ -227,6 +269,7 @@ def Sim.callDone (m : Sim) (cj : Nat × Nat) : Bool :=
 def Sim.record (m : Sim) : Sim :=
   { m with
     closedAt := stamp m.t m.closedAt (m.st.conns.map fun cn => cn.closed)
+    accAt := stamp m.now m.accAt (m.st.conns.map fun cn => cn.accepted)
     doneAt := stamp m.t m.doneAt (m.callMap.map m.callDone)
     resolvedAt := match m.resolvedAt with
       | some r => some r
@@ -238,15 +281,25 @@ def Sim.settle (m : Sim) : Sim :=
   let m := (m.runAll (4 * fuelOf m + 4000)).record
   { m with t := m.t + 1 }
 
-def Sim.issue (m : Sim) (c : Nat) (chunks : List (List Item)) : Sim :=
+def Sim.issue (m : Sim) (c : Nat) (chunks : List (List Item)) (req : Nat := 0) : Sim :=
   let j := match m.st.conns[c]? with | some cn => cn.calls.length | none => 0
-  let m := m.apply (.issue c chunks)
+  let m := m.apply (.issue c chunks req)
   { m with callMap := m.callMap ++ [(c, j)] }
 
 def Sim.doOp (m : Sim) : Op → Sim
-  | .conn => m.apply .offer
+  | .conn => if m.tls then m.apply (.offerTls true false) else m.apply .offer
+  | .connStalled => m.apply (.offerTls false false)
+  | .connBad => m.apply (.offerTls false true)
+  | .hello c => m.apply (.clientHello c)
   | .unary c s => m.issue c (unaryChunks s)
   | .stream c n s => m.issue c (streamChunks n s)
+  -- client-streaming: the answer is unary-shaped, produced once the request stream is complete
+  | .cstream c r s => m.issue c (unaryChunks s) r
+  -- bidi: the answer is stream-shaped; its status waits for the end of the request stream
+  | .bidi c r n s => m.issue c (streamChunks n s) r
+  | .reqMsg k => match m.callMap[k]? with
+    | some (c, j) => m.apply (.reqSend c j)
+    | none => m
   | .adv k => match m.callMap[k]? with
     | some (c, j) => m.apply (.permit c j)
     | none => m
@@ -257,7 +310,14 @@ def Sim.doOp (m : Sim) : Op → Sim
   | .cancel k => match m.callMap[k]? with
     | some (c, j) => m.apply (.cancel c j)
     | none => m
-  | .age => m.apply .ageTick
+  | .wait d =>
+    -- virtual time passes: the age timer of every connection accepted at least `ageLimit`
+    -- seconds ago has elapsed (no-op unless `max_connection_age` is configured)
+    let m := { m with now := m.now + d }
+    (connIdx m.st).foldl (fun m c =>
+      match m.accAt.getD c none with
+      | some t => if m.now - t ≥ ageLimit then m.apply (.ageTick c) else m
+      | none => m) m
 
 def Sim.doStep (m : Sim) (st : Step) : Sim :=
   let m := m.doOp st.op
@@ -265,9 +325,15 @@ def Sim.doStep (m : Sim) (st : Step) : Sim :=
 
 def simulate (sc : Script) (biased : Bool) (accW startW : List Bool) : Sim :=
   let m0 : Sim := { st := init sc.graceful biased sc.age, t := 0, closedAt := [], doneAt := [],
-                    resolvedAt := none, callMap := [], accW := accW, startW := startW }
+                    resolvedAt := none, callMap := [], accW := accW, startW := startW,
+                    tls := sc.tls }
   let m := sc.steps.foldl Sim.doStep m0
-  -- drain: every handler runs freely
+  -- drain: every client completes its request stream, every handler runs freely
+  let m := m.callMap.foldl (fun m cj =>
+    let left := match m.st.conns[cj.1]? with
+      | some cn => match cn.calls[cj.2]? with | some k => k.reqLeft | none => 0
+      | none => 0
+    (List.range left).foldl (fun m _ => m.apply (.reqSend cj.1 cj.2)) m) m
   let m := (m.apply .freeRun).settle
   -- every client goes away
   let m := (connIdx m.st).foldl (fun m c => m.apply (.peerDrop c)) m
@@ -277,9 +343,9 @@ def showIdx : Option Nat → String
   | some n => toString n
   | none => "-"
 
-def render (m : Sim) : String :=
+def render (m : Sim) (tcp : Bool := false) : String :=
   let r := match m.resolvedAt with
-    | some t => if m.st.cfgGraceful then s!"R{t}:{m.st.openAtResolve}:ok" else s!"R{t}:*:ok"
+    | some t => if m.st.cfgGraceful && !tcp then s!"R{t}:{m.st.openAtResolve}:ok" else s!"R{t}:*:ok"
     | none => "R-:-:-"
   let cs := (m.st.conns.zipIdx).map fun (cn, i) =>
     s!"c{i}:{if cn.accepted then 1 else 0}:{showIdx (m.closedAt.getD i none)}"
@@ -337,24 +403,28 @@ def analyse (sc : Script) : List ConnInfo × List CallInfo :=
   let quietUpTo (g : Nat) : Bool := match firstShutdownGroup with | some h => g < h | none => true
   let idxd := sg.zipIdx
   let conns : List ConnInfo := idxd.filterMap fun ((st, g), i) =>
+    let afterSig := (sc.steps.take i).any fun s => match s.op with | .sig => true | _ => false
     match st.op with
-    | .conn =>
-      let afterSig := (sc.steps.take i).any fun s => match s.op with | .sig => true | _ => false
-      some { afterSignal := afterSig, mustAccept := quietUpTo g, group := g }
+    | .conn => some { afterSignal := afterSig, mustAccept := quietUpTo g, group := g }
+    -- a client that does not (yet) complete a TLS handshake need not be accepted
+    | .connStalled | .connBad => some { afterSignal := afterSig, mustAccept := false, group := g }
     | _ => none
   let callOps : List (Nat × Nat × Nat × List Spec.Shutdown.Out) := idxd.filterMap fun ((st, g), i) =>
     match st.op with
     | .unary c s => some (i, g, c, Spec.Shutdown.planUnary s)
     | .stream c n s => some (i, g, c, Spec.Shutdown.planStream n s)
+    | .cstream c _ s => some (i, g, c, Spec.Shutdown.planClientStream s)
+    | .bidi c _ n s => some (i, g, c, Spec.Shutdown.planBidi n s)
     | _ => none
   let calls : List CallInfo := (callOps.zipIdx).map fun ((i, g, c, plan), k) =>
     let droppedEver := sc.steps.any fun s => match s.op with
       | .dropConn c' => c' == c | .cancel k' => k' == k | _ => false
     -- anything before the call became quiescent that could have turned the connection away
-    let disturbed := (sg.zipIdx).any fun ((s, g'), i') =>
+    let waited := (sg.filterMap fun (s, g') =>
+      match s.op with | .wait d => if g' ≤ g then some d else none | _ => none).foldl (· + ·) 0
+    let disturbed := (sc.age && waited ≥ ageLimit) || (sg.zipIdx).any fun ((s, g'), i') =>
       g' ≤ g && (match s.op with
         | .sig | .endInc => true
-        | .age => sc.age
         | .dropConn c' => c' == c && i' < i
         | _ => false)
     let connOk := match conns[c]? with | some ci => ci.mustAccept | none => false
@@ -428,6 +498,6 @@ def handle (case obs : List String) : String × String :=
       let startW := if racy then o.calls.map (·.started) else []
       -- the repaired accept loop (`biased;`): fixes/fix-C13-biased-accept-select.patch
       let m := simulate sc true accW startW
-      (render m, verdictOf sc o)
+      (render m sc.tcp, verdictOf sc o)
 
 end DriverC13
